@@ -16,74 +16,52 @@ Proof.
   right. replace (0 <? u_ltl s) with false by (symmetry; apply Z.ltb_ge; lia). reflexivity.
 Qed.
 
-(* valid -> accepted, every class but the key-down one *)
+(* valid -> accepted, every modelled class *)
 Lemma valid_accepts c p t s s' es :
-  c <> KeydownSkill ->
   v_valid (view_validity c p s) = true ->
   reduce_spec c MUse p t s = Some (s', es) -> rejected es = false.
 Proof.
-  intros Hk V H.
+  intros V H.
   destruct (match c with ConsumableBuffSkill => true | _ => false end) eqn:Ec.
   - destruct c; try discriminate. cbn in V, H. unfold use_consumable_buff_trait in H. rewrite V in H.
     cbn in H. injection H as <- <-. reflexivity.
-  - assert (A : avail s = true).
-    { destruct c; try discriminate; try congruence; cbn in V; unfold cd_validity in V; cbn in V;
-        try (destruct (p_disable p); [discriminate|]); exact V. }
-    clear V. destruct c; try discriminate; try congruence; cbn in H;
-      unfold use_simple_attack, use_multiple_damage, use_buff_trait, use_periodic_with_simple, use_periodic in H;
-      rewrite ?A in H; cbn [negb] in H; cbn iota in H;
-      try (injection H as <- <-; norej).
-    + (* stackable: the availability test is on the unchanged cooldown *)
-      match type of H with context [avail ?x] => assert (A1 : avail x = true) end.
-      { unfold avail in *. destruct (u_ltl s <=? 0); cbn; exact A. }
-      rewrite A1 in H. cbn in H. injection H as <- <-. reflexivity.
-    + (* temporal enhancing *)
-      destruct (avail2 (set_cd s (p_cdA p))); injection H as <- <-; norej.
+  - destruct (match c with KeydownSkill => true | _ => false end) eqn:Ek.
+    + destruct c; try discriminate. cbn in V, H. apply andb_prop in V. destruct V as [A R].
+      unfold use_keydown_trait in H. rewrite A in H. apply negb_true_iff in R. rewrite R in H.
+      cbn in H. injection H as <- <-. reflexivity.
+    + assert (A : avail s = true).
+      { destruct c; try discriminate; cbn in V; unfold cd_validity in V; cbn in V;
+          try (destruct (p_disable p); [discriminate|]); exact V. }
+      clear V. destruct c; try discriminate; cbn in H;
+        unfold use_simple_attack, use_multiple_damage, use_buff_trait, use_periodic_with_simple, use_periodic in H;
+        rewrite ?A in H; cbn [negb] in H; cbn iota in H;
+        try (injection H as <- <-; norej).
+      * (* stackable: the availability test is on the unchanged cooldown *)
+        match type of H with context [avail ?x] => assert (A1 : avail x = true) end.
+        { unfold avail in *. destruct (u_ltl s <=? 0); cbn; exact A. }
+        rewrite A1 in H. cbn in H. injection H as <- <-. reflexivity.
+      * (* temporal enhancing *)
+        destruct (avail2 (set_cd s (p_cdA p))); injection H as <- <-; norej.
 Qed.
 
-(* the key-down class: valid -> accepted holds on states where a running key-down implies a
-   running cooldown; that invariant is preserved when the applied cooldown is at least the
-   maximum key-down time, and fails otherwise (witness below). *)
-Definition kd_inv (s : ust) : Prop := 0 < K.tl (u_kd s) -> K.tl (u_kd s) <= u_cd s.
-
-Lemma keydown_valid_accepts p t s s' es :
-  kd_inv s -> v_valid (view_validity KeydownSkill p s) = true ->
-  reduce_spec KeydownSkill MUse p t s = Some (s', es) -> rejected es = false.
+(* the converse for key-down skills: validity hides the skill exactly while use would reject it *)
+Lemma keydown_validity_mirrors_use p s :
+  v_valid (view_validity KeydownSkill p s) = negb (rejected (snd (use_keydown_trait p s))).
 Proof.
-  unfold kd_inv. cbn. unfold cd_validity, use_keydown_trait, avail, K.running. cbn. intros I V H.
-  rewrite V in H. cbn in H.
-  destruct (0 <? K.tl (u_kd s)) eqn:E.
-  - apply Z.ltb_lt in E. apply Z.leb_le in V. specialize (I E). lia.
-  - injection H as <- <-. reflexivity.
-Qed.
-
-Lemma kd_inv_preserved m p t s s' es :
-  p_maxkd p <= p_cdA p -> 0 <= t -> kd_inv s ->
-  reduce_spec KeydownSkill m p t s = Some (s', es) -> kd_inv s'.
-Proof.
-  unfold kd_inv. intros Hp Ht I H.
-  destruct m; cbn in H; try discriminate.
-  - unfold use_keydown_trait in H. destruct (negb (avail s) || K.running (u_kd s)); injection H as <- <-; cbn; auto.
-  - unfold elapse_keydown_trait, K.resolving in H.
-    destruct (K.loop _ _ _ _ _) as [k c']. injection H as <- _. cbn. lia.
-  - unfold stop_keydown_trait in H. destruct (negb (K.running (u_kd s))); injection H as <- <-; cbn; auto. lia.
+  cbn. unfold use_keydown_trait. destruct (avail s); destruct (K.running (u_kd s)); reflexivity.
 Qed.
 
 Definition kd0_par : par :=
   mkPar false (1,1) 120 0 0 0 0 0%nat [] (0,0) (0,0) (0,0) (2,1) 0 (0,0) 1000 0 0 0 (0,0).
 Definition kd0_state : ust :=
   mkU 0 0 0 0 (C.mkC 1 1 1 1) (P.mkP 1 1 0 0) (P.mkP 1 1 0 0) (P.mkP 1 1 0 0) None None None (K.mkK 120 0 (-1)) 0.
-(* a cooldown-free key-down skill: after one use it is advertised as usable while running,
-   and using it is rejected *)
-Lemma keydown_valid_accepts_refuted :
-  exists p s s1 e1 s2 e2,
-    reduce_spec KeydownSkill MUse p 0 s = Some (s1, e1) /\ rejected e1 = false /\
-    v_valid (view_validity KeydownSkill p s1) = true /\
-    reduce_spec KeydownSkill MUse p 0 s1 = Some (s2, e2) /\ rejected e2 = true.
-Proof.
-  exists kd0_par, kd0_state. do 4 eexists. repeat split; vm_compute; reflexivity.
-Qed.
+(* the cooldown-free key-down skill of the former finding: after one use it is running, and
+   validity now says not usable *)
+Example keydown_running_not_advertised :
+  exists s1 e1, reduce_spec KeydownSkill MUse kd0_par 0 kd0_state = Some (s1, e1) /\ rejected e1 = false /\
+    v_valid (view_validity KeydownSkill kd0_par s1) = false.
+Proof. do 2 eexists. repeat split; vm_compute; reflexivity. Qed.
 
 Example valid_state_exists :
-  v_valid (view_validity AttackSkill kd0_par kd0_state) = true /\ kd_inv kd0_state.
-Proof. split; [reflexivity|]. unfold kd_inv. cbn. lia. Qed.
+  v_valid (view_validity AttackSkill kd0_par kd0_state) = true /\ v_valid (view_validity KeydownSkill kd0_par kd0_state) = true.
+Proof. split; reflexivity. Qed.
